@@ -27,6 +27,91 @@ CHECKS = {
              "file of the repository and on ill-formed UTF-8; each returned token stream is judged by partition/position laws computed from the "
              "source text, by an independent lexer for kinds and by the indentation rule.",
         note="Trusts: the independent lexer (written from the lexical rules, keyword table = snapshot of the pinned keyword list); indent of tokens spanning lines is not judged."),
+    "C01": dict(
+        technique="runtime monitoring: reference-model monitor (independent evaluator) on stdout/exit status of compiled programs at -O 0/1/2",
+        category="exploration", design="§4 C01, §10",
+        text="Held-on-observed: seeded well-typed core-language programs (operator cell sweep over boundary value pools, random expression trees, random statement "
+             "programs with every loop form, functions, Referenz parameters, Kombinationen, Variable) are compiled by the real kddp and run; every tagged observation "
+             "line and the exit status are compared byte for byte with ddpmodel's reference evaluator. Programs are generated-and-filtered by the model so they stay "
+             "in the domain where it is authoritative; a failing program is reduced and reported by the shape of the reduced witness.",
+        note="Trusts: the reference evaluator (validated on a hand-written broad program and on upstream's rules, DESIGN §8); Python float == IEEE double with glibc formatting; locale shim."),
+    "C02": dict(
+        technique="runtime monitoring: outcome monitor on the real tools over an exhaustively enumerated operator x type-class x context space",
+        category="exploration", design="§4 C02, §10",
+        text="Held-on-observed, exhaustive in a finite space: every unary/binary/ternary operator and cast over 22 operand type classes, operands as variables and as "
+             "temporaries, in up to 20 value contexts; each cell is one function. The real front end selects the accepted cells; programs assembled from accepted cells "
+             "only must be compiled and linked by kddp. Failures are bisected down to single cells.",
+        note="Trusts: nothing but the tools' own outcomes; quick samples the context dimension (thorough enumerates it)."),
+    "C04": dict(
+        technique="runtime monitoring: invariant monitor at the front end's diagnostic boundary on single-fault programs with positive controls",
+        category="exploration", design="§4 C04, §10",
+        text="Held-on-observed: front-end-accepted base programs get exactly one injected static fault (catalogue of ~330 faults over 45 classes: scoping, redeclaration, "
+             "operand/initialiser/assignment/argument/condition/bound/return types, Konstante mutation, loop control, missing return, visibility across modules, "
+             "articles) at five syntactic sites; each fault has a well-formed twin that must be accepted. The faulty program must yield >= 1 error and Faulty; a "
+             "sample goes through kddp (exit != 0, no executable).",
+        note="Trusts: the catalogue entries are ill-formed by construction (each validated standalone against its twin); faults whose twin is not accepted at a site are discarded and counted."),
+    "C05": dict(
+        technique="runtime monitoring: allocation ledger (link-time --wrap of ddp_reallocate) + valgrind memcheck + ASan/UBSan runtime on generated programs",
+        category="exploration", design="§4 C05, §10",
+        text="Held-on-observed: ownership-biased generated programs run under three monitors - the ledger checks every (pointer, old size, new size) event against its "
+             "shadow table and that nothing is live at normal exit, at -O 0/1/2; memcheck watches the unmodified optimised executable; the ASan+UBSan build of runtime and "
+             "stdlib watches library code. A violating program is reduced under the same monitor.",
+        note="Trusts: interposition sees every ddp_reallocate call of generated code, runtime and stdlib; blocks obtained by plain malloc are counted as foreign, not judged; ASan leak detection is off."),
+    "C06": dict(
+        technique="runtime monitoring: reference-model monitor, one execution per (length, index) pair of argument-driven access programs",
+        category="exploration", design="§4 C06, §10",
+        text="Held-on-observed, exhaustive in a small space: one compiled program per (element type, access form) takes length and indices from the command line, so each "
+             "of ~10 000 (quick) cases is one run of the real executable: lengths 0..13 x indices -2..len+2 and 64-bit extremes x 6 element types and multi-byte texts x "
+             "{rvalue, temporary, Byte index, assignment, compound assignment, Referenz argument, nested, Kombination field, three slice forms}, Variable casts over all "
+             "type pairs, '...' statements.",
+        note="Trusts: the Python model of 1-based indexing and of the slice clamping rule (DESIGN §8)."),
+    "C08": dict(
+        technique="runtime monitoring: reference-model monitor on copy-then-mutate programs at -O 0/1/2",
+        category="exploration", design="§4 C08, §10",
+        text="Held-on-observed: each case creates a second holder of a non-primitive value through one of 13 copy-introducing constructs, mutates one holder through one of "
+             "the mutation forms and prints every holder; includes f(x, x) with value and Referenz parameters and callees assigning a global they also receive by value, "
+             "with read-only / assigning / passing-on callee bodies (the -O 2 elision trigger).",
+        note="Trusts: value semantics of the reference evaluator (deep copy on every store)."),
+    "C09": dict(
+        technique="runtime monitoring: reference-model monitor (independent alias matcher) on the AST returned by the real parser and on run-time traces",
+        category="exploration", design="§4 C09, §10",
+        text="Held-on-observed: generated alias populations built to collide (prefixes, permuted placeholders, type twins, Referenz/value and generic/concrete twins, "
+             "constructors, imports, negation markers, >12 candidates) and operator overload populations; every call site's resolved declaration and argument binding "
+             "from the probe's AST dump is compared with an independent implementation of the stated rule; a sample is compiled and its printed trace compared.",
+        note="Trusts: the matcher; sites where the rule leaves a tie are accepted either way and counted as trivial."),
+    "C10": dict(
+        technique="runtime monitoring: ordering / exactly-once checker over the initialiser trace of compiled import graphs + visibility matrix through the real front end",
+        category="exploration", design="§4 C10, §10",
+        text="Held-on-observed: generated import graphs (chains, diamonds, directory and selective imports, path spellings) whose every global initialiser prints a unique "
+             "id are compiled and run; the trace must show each initialiser exactly once, dependencies first, before importer code after the import, no top-level statement "
+             "of an import; cycles must be rejected. A visibility matrix (kind x visibility x import mode) is decided by the real front end, one name per program.",
+        note="Trusts: unique ids make the trace unambiguous; the §8 source-order rule among siblings is stricter than the property and never fires on the tree."),
+    "C11": dict(
+        technique="runtime monitoring: differential monitor across the 12 (optimisation level, link mode) configurations",
+        category="exploration", design="§4 C11, §10",
+        text="Held-on-observed: generated programs with a self-contained print prelude (no imports, so --module-linken=false applies) and upstream's runnable programs are "
+             "compiled under every configuration; exit status, stdout and run-time error class must agree. Disagreeing generated programs are reduced while two "
+             "configurations still disagree.",
+        note="Trusts: nothing but equality of observed behaviour; programs depending on time/randomness/environment are excluded by a deny list."),
+    "C12": dict(
+        technique="runtime monitoring: history checker against Python str on direct calls into the ASan/UBSan-built runtime + exhaustive scalar sweep + compiled programs",
+        category="exploration", design="§4 C12, §10",
+        text="Held-on-observed with an exhaustive core: a C driver linked against the real runtime (sanitizer and plain builds) pushes all 1 112 063 non-zero scalar values "
+             "through the per-character operations and replays seeded command histories (literal, concat, slice, replace, index, length, equality, iteration) whose every "
+             "step is compared with Python's str; the same histories run as compiled DDP programs, plain and linked against the ASan runtime.",
+        note="Trusts: Python str as the code-point model; U+0000 is outside the domain (texts are NUL-terminated)."),
+    "C17": dict(
+        technique="runtime monitoring: reference-model monitor (Python models written from the doc comments) on generated driver programs",
+        category="exploration", design="§4 C17, §10",
+        text="Held-on-observed: 227 of 230 public functions of Listen, Texte, Sortierung, Zeichen, Zahlen, Mathe, Statistik are called through their documented aliases in "
+             "generated drivers with boundary arguments; result and every argument after the call are compared with the model; a sample runs under memcheck.",
+        note="Trusts: the doc comments as specification; ambiguous or contradictory comments are excluded and listed in the evidence."),
+    "C18": dict(
+        technique="runtime monitoring: identity-model monitor on generated C callees + allocation ledger + memcheck for ownership",
+        category="exploration", design="§4 C18, §10",
+        text="Held-on-observed: generated extern signatures (17 kinds x value/Referenz x arity 0-6 x every return kind, pairwise covering) with a generated C callee that prints "
+             "what it receives, writes through every Referenz pointer and returns a fresh value; caller output, callee output and the ledger/memcheck verdicts are checked.",
+        note="Trusts: published headers plus the conventions visible in stdlib C sources for Kombination layout."),
     "C14": dict(
         technique="runtime monitoring: law monitor over the real ddptypes predicates (exhaustive finite closure) + front-end acceptance monitor vs the stated assignability rule",
         category="exploration", design="§4 C14",
